@@ -20,6 +20,14 @@ CLAIMED["C05"] = (
     "_pcc are regenerated from source each run; _create_mesh and landscape shapes compared with the model inside Coq. "
     "No-exception/finite-score clauses and loader-level displacement are exercised by an implementation oracle (partial).",
     "regenerated anchors + Coq theorems (lia/lra) + in-Coq correspondence")
+CLAIMED["C06"] = (
+    "Theorems (Coq, all T>=1 (<=256), K>=1, all score lists): the reported flat index is a first arg-max (>= every candidate), "
+    "and decoding it with the code's own expressions (align: iopt // n_templates; loader/group label: % remainder with the code's "
+    "guards, uint8) returns exactly the (template j, rotation k) of that candidate; fit() uses the same codec; group-level decoding "
+    "equals loader-level. Tie: decode expressions regenerated from source; scripted-score correspondence drives model.align, "
+    "loader.align(_multi_templates) and LoaderGroup.align_multi_templates (incl. per-group mappings) and compares label/rotation/"
+    "score inside Coq; candidate order tied by a structural anchor + real-score oracle (ZNCC/NCC/PCC).",
+    "regenerated anchors + Coq theorems (induction on score list) + scripted correspondence")
 NOT_YET = "machinery for this property is not built yet in this revision (see DESIGN.md §6 for the planned model)"
 
 def main():
